@@ -33,7 +33,7 @@ func newResolver(v string) (Resolver, error) {
 // Match returns true if the rule matches domain.
 func (r Resolver) Match(domain string) bool {
 	if r.Domain != "" {
-		if domain != r.Domain && !isSubDomain(domain, r.Domain) {
+		if !equalFold(domain, r.Domain) && !isSubDomain(domain, r.Domain) {
 			return false
 		}
 	}
@@ -55,7 +55,33 @@ func fqdn(s string) string {
 }
 
 func isSubDomain(sub, domain string) bool {
-	return strings.HasSuffix(sub, "."+domain)
+	return hasSuffixFold(sub, "."+domain)
+}
+
+// hasSuffixFold is strings.HasSuffix with DNS case-insensitivity (RFC 4343).
+func hasSuffixFold(s, suffix string) bool {
+	return len(s) >= len(suffix) && equalFold(s[len(s)-len(suffix):], suffix)
+}
+
+// equalFold reports whether a and b are equal under ASCII case folding, the
+// way DNS names are compared (RFC 4343).
+func equalFold(a, b string) bool {
+	if len(a) != len(b) {
+		return false
+	}
+	for i := 0; i < len(a); i++ {
+		if lowerASCII(a[i]) != lowerASCII(b[i]) {
+			return false
+		}
+	}
+	return true
+}
+
+func lowerASCII(c byte) byte {
+	if 'A' <= c && c <= 'Z' {
+		c += 'a' - 'A'
+	}
+	return c
 }
 
 // Forwarders is a list of Resolver with rules.
